@@ -136,9 +136,13 @@ def solve (v : Variant) (m : Method) (i : Input α) : Except Err (Output α) :=
   match countPos z with
   | 0 => .error .noComponents
   | 1 =>
-    -- `T = chemical.Tsat(P) if P <= chemical.Pc else chemical.Tc`  (and the P counterpart)
+    -- `T = chemical.Tsat(P) if P <= chemical.Pc else chemical.Tc`  (and the P counterpart).
+    -- The reported residual is that of the GENERAL equation at the recorded parameters (`1 − K_c` resp.
+    -- `1 − 1/K_c`, see `single_component_consistent`); beyond the critical point there is no equation to satisfy.
     .ok { value := if i.critSpec < i.spec then i.critRet else i.sat,
-          fracs := fnNormalize i.minimum z, residual := 0, single := true }
+          fracs := fnNormalize i.minimum z,
+          residual := if i.critSpec < i.spec then 0 else residual m (pairs .fixed m i.comps i.P),
+          single := true }
   | _ =>
     let zk := pairs v m i.comps i.P
     .ok { value := i.ret, fracs := fnNormalize i.minimum (vec m zk),
@@ -154,6 +158,30 @@ def monoBetween (T₁ T₂ : α) (k₁ k₂ : List α) : Bool :=
   k₁.length == k₂.length &&
   (k₁.zip k₂).all (fun p =>
     if T₁ < T₂ then decide (p.1 < p.2) else if T₂ < T₁ then decide (p.2 < p.1) else true)
+
+/-! ### quantities the driver recomputes from recorded values (relations between two calls) -/
+
+/-- Pressure implied by the recorded `κ_i` of one call: `Σ z_i κ_i` for a bubble call, `1/Σ z_i/κ_i` for a dew
+call (with the fixed-point value of `κ` these are the bubble / dew equations solved for `P`). -/
+def impliedP (bubble : Bool) (z kappa : List α) : α :=
+  let zk := (normalizeZ z).zip kappa
+  if bubble then idealBubbleP zk else idealDewP zk
+
+/-- `|a − b| ≤ tol·|b|`-style closeness without `abs`: `a ≤ b·(1+tol)` and `b ≤ a·(1+tol)` (positive values). -/
+def relClose (tol a b : α) : Bool := !(decide (b * (1 + tol) < a)) && !(decide (a * (1 + tol) < b))
+
+def absClose (tol a b : α) : Bool := !(decide (b + tol < a)) && !(decide (a + tol < b))
+
+def allRelClose (tol : α) (a b : List α) : Bool :=
+  a.length == b.length && (a.zip b).all (fun p => relClose tol p.1 p.2)
+
+def allAbsClose (tol : α) (a b : List α) : Bool :=
+  a.length == b.length && (a.zip b).all (fun p => absClose tol p.1 p.2)
+
+/-- Every component's vapour pressure at the first temperature is at most (1+tol)× that at the second:
+with increasing `Psat_i` this is how `T₁ ≤ T₂` shows in the recorded values. -/
+def allLe (tol : α) (a b : List α) : Bool :=
+  a.length == b.length && (a.zip b).all (fun p => !(decide (p.2 * (1 + tol) < p.1)))
 
 end Scalar
 
